@@ -21,7 +21,6 @@ def Wit.results (w : Wit) : List Res := (run w.n w.p w.pool []).1.map (·.1)
 
 def wPanicIndex : Wit := ⟨.wrr [1, 1] 0, [upW 1 false, upW 2 true, upW 3 true], 1⟩
 def wPanicDivide : Wit := ⟨.wrr [0, 0] 0, [upW 1 true], 1⟩
-def wPanicNilWriter : Wit := ⟨.keyed false (.cookie none .first), [upW 1 true], 1⟩
 def wRRWrapNil : Wit := ⟨.rr 4294967294, [upW 1 false, upW 2 false, upW 3 true], 1⟩
 def wRRWrapRepeat : Wit := ⟨.rr 4294967294, [upW 1 true, upW 2 true, upW 3 true], 2⟩
 def wWeightsDown : Wit := ⟨.wrr [1, 3, 1] 0, [upW 1 false, upW 2 true, upW 3 true], 5⟩
@@ -33,10 +32,6 @@ theorem select_never_panics_full_fails_index : wPanicIndex.results = [.panicIdx]
 
 /-- FULL: no selection panics. Fails: `… % r.totalWeight` with two or more weights, all 0. -/
 theorem select_never_panics_full_fails_divide : wPanicDivide.results = [.panicDiv] := by decide
-
-/-- FULL: no selection panics. Fails: a header / query policy whose key is absent calls its
-    fallback with a nil ResponseWriter; a cookie fallback then sets a cookie on it. -/
-theorem select_never_panics_full_fails_nil_writer : wPanicNilWriter.results = [.panicNil] := by decide
 
 /-- FULL: round robin returns an upstream whenever one is available. Fails when the uint32
     counter wraps and the pool size does not divide 2^32: from counter 2^32-2 the probes visit
@@ -93,6 +88,6 @@ def Wit.line (w : Wit) : String :=
 
 /-- counter-example lines replayed on the implementation on every run -/
 def witnessLines : List String :=
-  [wPanicIndex, wPanicDivide, wPanicNilWriter, wRRWrapNil, wRRWrapRepeat, wWeightsDown, wWeightsShortPool].map Wit.line
+  [wPanicIndex, wPanicDivide, wRRWrapNil, wRRWrapRepeat, wWeightsDown, wWeightsShortPool].map Wit.line
 
 end CaddyModel.C08
